@@ -557,45 +557,68 @@ def f1_dtype_accumulators(ctx: Ctx) -> None:
 
 def f1_loop_dtype_carried(ctx: Ctx) -> None:
     R = 'F1.loop-dtype-carried'
-    ctx.rule(R, 'a dtype name that types an array built from a list filled in a loop (`np.array(L, dtype=X)` after `L.append(...)` in the loop) describes every collected '
-             'element: inside the loop X is only widened — each assignment is a dtype-resolver call over X itself or over the value X held before the loop; a plain '
-             'reassignment inside the loop lets the last iteration decide, and an element collected earlier (a fill value of another type) is cast into it', floor=1)
+    ctx.rule(R, 'a dtype name that is assigned inside a loop and, after the loop, types what the loop collected (`np.array(L, dtype=X)`, `np.empty(shape, dtype=X)`, '
+             '`.astype(X)`, or X is returned) describes every element seen: inside the loop X is only widened — each assignment is a dtype-resolver call over X itself, '
+             'or over the value X held before the loop together with loop-invariant operands; a plain reassignment, or a resolver call over the current element and a '
+             'fixed dtype, lets the last iteration decide, and an element seen earlier (a wider block in the middle, a fill value of another type) is cast into it', floor=3)
     prog = ctx.prog
     n = 0
     for f in prog.all_funcs():
         if isinstance(f.node, ast.Lambda) or f.module.short in SKIP_MODULES:
             continue
-        for c in walk_local(f.node):
-            if not (isinstance(c, ast.Call) and call_name(c) == 'np.array' and c.args and isinstance(c.args[0], ast.Name)):
+        for lp in walk_local(f.node):
+            if not isinstance(lp, (ast.For, ast.While)):
                 continue
-            dt = kwarg(c, 'dtype') or (c.args[1] if len(c.args) > 1 else None)
-            if not isinstance(dt, ast.Name):
-                continue
-            lst, x = c.args[0].id, dt.id
-            loops = [lp for lp in walk_local(f.node) if isinstance(lp, (ast.For, ast.While)) and lp.end_lineno < c.lineno
-                     and any(isinstance(a, ast.Call) and isinstance(a.func, ast.Attribute) and a.func.attr == 'append' and isinstance(a.func.value, ast.Name) and a.func.value.id == lst
-                             for a in ast.walk(lp))
-                     and any(isinstance(a, ast.Assign) and any(isinstance(t, ast.Name) and t.id == x for t in a.targets) for a in ast.walk(lp))]
-            # the innermost such loop in which the list is also created is not required: take the innermost loop appending and assigning
-            loops = [lp for lp in loops if not any(o is not lp and any(y is o for y in ast.walk(lp)) for o in loops)]
-            for lp in loops:
+            assigned: tp.Dict[str, tp.List[ast.Assign]] = {}
+            for a in ast.walk(lp):
+                if isinstance(a, ast.Assign) and len(a.targets) == 1 and isinstance(a.targets[0], ast.Name):
+                    assigned.setdefault(a.targets[0].id, []).append(a)
+            # names bound by the loop (targets of this loop and of nested loops / comprehensions, and anything assigned in it)
+            bound = set(assigned)
+            for x in ast.walk(lp):
+                if isinstance(x, (ast.For, ast.comprehension)):
+                    bound |= {y.id for y in ast.walk(x.target) if isinstance(y, ast.Name)}
+            for x, ins in assigned.items():
+                # innermost loop only
+                if any(isinstance(o, (ast.For, ast.While)) and o is not lp and all(any(y is a for y in ast.walk(o)) for a in ins) for o in ast.walk(lp)):
+                    continue
+                # X is a dtype: some assignment (inside or before) is a resolver call or a `.dtype` read
+                all_defs = [a for a in walk_local(f.node) if isinstance(a, ast.Assign) and any(isinstance(t, ast.Name) and t.id == x for t in a.targets)]
+                if not any((isinstance(a.value, ast.Call) and call_name(a.value) in RESOLVERS) or (isinstance(a.value, ast.Attribute) and a.value.attr == 'dtype') for a in all_defs):
+                    continue
+                # used after the loop to type the collected data
+                end = lp.end_lineno or lp.lineno
+                uses = [c for c in walk_local(f.node) if isinstance(c, ast.Call) and c.lineno > end and
+                        ((kwarg(c, 'dtype') is not None and norm(kwarg(c, 'dtype')) == x) or
+                         (isinstance(c.func, ast.Attribute) and c.func.attr == 'astype' and c.args and norm(c.args[0]) == x))]
+                rets = [r for r in walk_local(f.node) if isinstance(r, ast.Return) and r.lineno > end and isinstance(r.value, ast.Name) and r.value.id == x]
+                if not uses and not rets:
+                    continue
                 n += 1
                 key = f'{f.qualname.split(".", 1)[1]}:{x}'
-                inits = [norm(a.value) for a in walk_local(f.node) if isinstance(a, ast.Assign) and any(isinstance(t, ast.Name) and t.id == x for t in a.targets)
-                         and a.lineno < lp.lineno and not any(y is a for y in ast.walk(lp))]
+                inits = [norm(a.value) for a in all_defs if a.lineno < lp.lineno and not any(y is a for y in ast.walk(lp))]
                 bad = None
-                for a in ast.walk(lp):
-                    if isinstance(a, ast.Assign) and any(isinstance(t, ast.Name) and t.id == x for t in a.targets):
-                        v = a.value
-                        args = [norm(z) for z in v.args] if isinstance(v, ast.Call) else []
-                        if isinstance(v, ast.Call) and call_name(v) in RESOLVERS and (x in args or any(i in args for i in inits)):
+                for a in ins:
+                    v = a.value
+                    if isinstance(v, ast.Name) and v.id in SAFE_DTYPES:
+                        continue        # widening to a top dtype (object) is final
+                    # first-element idiom: `if X is None: X = elem.dtype` (else: merge)
+                    from sfa.rules.blockrules import _enclosing_ifs
+                    if any(pol and norm(i.test) == f'{x} is None' for i, pol in _enclosing_ifs(lp, a)):
+                        continue
+                    if isinstance(v, ast.Call) and call_name(v) in RESOLVERS:
+                        args = [norm(z) for z in v.args]
+                        if x in args:
                             continue
-                        bad = a
-                        break
+                        invariant = not any(isinstance(y, ast.Name) and y.id in bound for z in v.args for y in ast.walk(z))
+                        if invariant and any(i in args for i in inits):
+                            continue
+                    bad = a
+                    break
+                what = norm(uses[0])[:50] if uses else f'return {x}'
                 if bad is not None:
-                    ctx.bad(R, f, bad, f'`{norm(bad)[:60]}` reassigns the dtype of `np.array({lst}, dtype={x})` inside the loop that fills `{lst}`' +
-                            ('' if inits else f' (and `{x}` has no value before the loop)') + ': the last iteration decides the dtype and elements collected before '
-                            'it are cast (a float fill value into an int column)', key=key)
+                    ctx.bad(R, f, bad, f'`{norm(bad)[:70]}` inside the loop does not build on the dtype carried so far, yet `{x}` types `{what}` after the loop: the last '
+                            'iteration decides the dtype and what was seen before it is cast (a wider input in the middle, a float fill value into an int column)', key=key)
                 else:
-                    ctx.ok(R, f, c, f'`{x}` starts as `{inits[0] if inits else "?"}` and is only widened by the resolver inside the loop', key=key)
-    ctx.require(n >= 1, 'arrays typed by a loop-carried dtype')
+                    ctx.ok(R, f, ins[0], f'`{x}` is only widened inside the loop (initial value `{inits[0] if inits else "?"}`) and then types `{what}`', key=key)
+    ctx.require(n >= 3, 'loop-carried dtypes')
